@@ -24,7 +24,7 @@ import lib
 PROPS = {"OutputAllowed": "OutputAllowed", "CloseCode": "OutputAllowed (prescribed close code)", "NoStartBeforeInit": "NoStartBeforeInit",
          "OneTerminal": "OneTerminal", "NothingAfterTerminal": "NothingAfterTerminal", "NeverWedged": "NeverWedged",
          "NoPanic": "NeverWedged (no crash)"}
-VARIANTS = {"init": 3, "ping": 2, "unknown": 3, "malformed": 6, "binary": 3}
+VARIANTS = {"init": 3, "initrej": 2, "ping": 2, "unknown": 3, "malformed": 6, "binary": 3, "subbad": 6}
 END = {"ev": "end", "a": "", "id": "", "k": 0, "n": 0, "code": 0}
 
 
@@ -74,7 +74,7 @@ def v2_steps(steps):
             kinds[i + 1] = "s" if s["sym"] in ("sub1s", "sub2s") else "q"
     first = {}
     for s in out:
-        if s.get("hold") or s["t"] == "release":
+        if s.get("hold") or s["t"] in ("release", "broken") or s.get("sym") == "subbad":
             return None
         if s["t"] == "eng":
             kd = kinds.get(s["k"])
@@ -240,24 +240,37 @@ def run(ctx):
             uniq[lib.sha(b["steps"])] = b["steps"]
         scheds = [uniq[k] for k in sorted(uniq)]
         exhaustive[p] = len(scheds)
+        # schedules that end with a transport broken for good cost a read-error time-out (150ms) each
+        bro = [x for x in scheds if x[-1]["t"] == "broken"]
+        bro_re = [x for x in bro if any(y.get("sym") == "readerr" for y in x)]     # read error, ..., persistent read errors
+        bro_other = [x for x in bro if not any(y.get("sym") == "readerr" for y in x)]
+        scheds = [x for x in scheds if x[-1]["t"] != "broken"]
+        rng.shuffle(bro_re)
+        rng.shuffle(bro_other)
+        if quick:
+            bro = bro_re[:120] + bro_other[:40]
+        else:
+            bro = (bro_re + bro_other) if p == "tws" else (bro_re + bro_other[:3000])
         if quick and p == "gws":
-            # the legacy protocol never closes: 12^3 message sequences x engine interleavings; quick takes all
-            # schedules with <= 1 engine event and a seed-selected part of the rest
-            small = [s for s in scheds if sum(1 for x in s if x["t"] == "eng") <= 1]
-            rest = [s for s in scheds if sum(1 for x in s if x["t"] == "eng") > 1]
+            # the legacy protocol never closes: 15^3 message sequences x engine interleavings; quick takes a seed-selected part,
+            # biased to the schedules with <= 1 engine event
+            small = [x for x in scheds if sum(1 for y in x if y["t"] == "eng") <= 1]
+            rest = [x for x in scheds if sum(1 for y in x if y["t"] == "eng") > 1]
+            rng.shuffle(small)
             rng.shuffle(rest)
-            scheds = small + rest[:1500]
-        ctx.log("%s: %d schedules with <= 3 client messages generated, %d replayed" % (p, exhaustive[p], len(scheds)))
-        for i, st in enumerate(scheds):
+            scheds = small[:4800] + rest[:1200]
+        ctx.log("%s: %d schedules with <= 3 client messages generated, %d + %d (broken transport) replayed" % (p, exhaustive[p], len(scheds), len(bro)))
+        for i, st in enumerate(scheds + bro):
             cases.append(make_case("%s-x-%06d" % (p, i), p, "tc", st))
         # the same schedules over the real frame codec, with seed-chosen wire variants of the symbols
-        conn = scheds if (p == "tws" or not quick) else rng.sample(scheds, 2000)
+        conn = scheds if (p == "tws" or not quick) else rng.sample(scheds, 1500)
+        conn = conn + (bro[:60] if quick else bro[:2000])
         for i, st in enumerate(conn):
             cases.append(make_case("%s-c-%06d" % (p, i), p, "conn", st, rng))
         # the schedules the real ExecutorV2 can realise (gated, not scripted): the same acceptor judges them
         v2 = [x for x in (v2_steps(st) for st in scheds) if x is not None and any(y["t"] == "eng" for y in x)]
-        if quick and len(v2) > 1500:
-            v2 = rng.sample(v2, 1500)
+        if quick and len(v2) > 1000:
+            v2 = rng.sample(v2, 1000)
         for i, st in enumerate(v2):
             cases.append({"id": "%s-v-%06d" % (p, i), "proto": p, "mode": "v2", "steps": st})
         ctx.log("%s: %d schedules replayed with the real ExecutorV2" % (p, len(v2)))
@@ -274,7 +287,9 @@ def run(ctx):
                 uniq5[lib.sha(b["steps"])] = b["steps"]
         long = [uniq5[k] for k in sorted(uniq5)]
         rng.shuffle(long)
-        long = long[:(1000 if quick else 40000)]
+        slow = [x for x in long if x[-1]["t"] == "broken"][:(40 if quick else 3000)]
+        long = [x for x in long if x[-1]["t"] != "broken"]
+        long = long[:(900 if quick else 37000)] + slow
         ctx.log("%s: %d distinct sampled schedules with 4-5 client messages" % (p, len(long)))
         for i, st in enumerate(long):
             cases.append(make_case("%s-s-%06d" % (p, i), p, "tc" if i % 2 == 0 else "conn", st, rng))
@@ -329,11 +344,30 @@ def replay_and_judge(ctx, binary, cases, nproc, single=False):
             crashes += cr
             for r in lib.read_ndjson(rp):
                 results[r["id"]] = r
+    # a case in which a completion marker did not arrive in time is run once more, alone (the box may just be overloaded);
+    # only what the second run shows counts ("reproducibly never returns")
+    again = [by_id[i] for i, r in results.items() if r["wedged"]]
+    unjudged = set()
+    if again and not single:
+        rerun = again[:64]
+        unjudged = {c["id"] for c in again[64:]}      # not run twice => not judged (counted in the notes)
+        ctx.log("%d cases with a late completion marker: %d are run again, %d left unjudged" % (len(again), len(rerun), len(unjudged)))
+        k = max(1, min(nproc, len(rerun) // 8 + 1))
+        with concurrent.futures.ThreadPoolExecutor(max_workers=k) as ex:
+            futs = [ex.submit(replay_chunk, ctx, binary, 900 + i, rerun[i::k]) for i in range(k)]
+            for f in futs:
+                ep, rp, cr = f.result()
+                eps.append(ep)
+                crashes += cr
+                for r in lib.read_ndjson(rp):
+                    results[r["id"]] = r
+        if unjudged:
+            ctx.notes.append("%d cases with a late completion marker were not re-run and are not judged" % len(unjudged))
     # ---- 4. validate --------------------------------------------------------------------------------------
     first_rows = None
     with concurrent.futures.ThreadPoolExecutor(max_workers=nproc) as ex:
         futs = [ex.submit(validate_chunk, ctx, i, ep) for i, ep in enumerate(eps)]
-        for f in futs:
+        for f in futs:   # in order: the verdicts of the re-run chunk (last) replace the first ones
             for v in f.result():
                 verdicts[v["id"]] = v
     # ---- verdicts ---------------------------------------------------------------------------------------------
@@ -354,8 +388,8 @@ def replay_and_judge(ctx, binary, cases, nproc, single=False):
         cid = c["id"]
         r = results.get(cid)
         v = verdicts.get(cid)
-        if r is None:
-            continue  # crashed case, reported above
+        if r is None or cid in unjudged:
+            continue  # crashed case (reported above) / late case that was not run twice
         if v is None:
             raise lib.Inconclusive("no verdict for case %s" % cid)
         if r["unrealised"]:
@@ -439,6 +473,8 @@ def replay_and_judge(ctx, binary, cases, nproc, single=False):
 
 
 def step_str(s):
+    if s["t"] == "broken":
+        return "transport-broken"
     if s["t"] == "in":
         return s["sym"] + ("/v%d" % s["v"] if s.get("v") else "")
     if s["t"] == "eng":
@@ -455,7 +491,7 @@ def load_events(ctx):
         if fn.startswith("events-") and fn.endswith(".ndjson"):
             for e in lib.read_ndjson(os.path.join(ctx.scratch, fn)):
                 if e["ev"] == "reset":
-                    cur = out.setdefault(e["id"], [])
+                    cur = out[e["id"]] = []   # a re-run of a case (later file) replaces the first recording
                 if e["ev"] == "end":
                     continue
                 if cur is not None:
